@@ -4,60 +4,33 @@
   `cubeOf vars s` as an index function.  These lemmas close the gap: every raw index the
   extractors touch is in range, so reshaping the flat list reads the same cell.
 -/
-import CrCube.Lemmas.SliceShape
-import CrCube.Lemmas.Tensor
+import CrCube.Lemmas.NumericFlat
 
 set_option linter.unusedSimpArgs false
 
 namespace CrCube
-
-/-- payload well-formedness of a variable: a categorical variable has one missing flag per
-    raw category -/
-def Var.WF (v : Var) : Prop := v.kind = .cat → v.n = v.catMissing.length
-
-theorem validIdxs_lt (m : List Bool) (t : Nat) (ht : t < (validIdxs m).length) :
-    (validIdxs m)[t]?.getD 0 < m.length := by
-  rw [List.getElem?_eq_getElem ht]
-  simp only [Option.getD_some]
-  have hmem : (validIdxs m)[t] ∈ validIdxs m := List.getElem_mem ht
-  unfold validIdxs at hmem
-  exact List.mem_range.mp (List.mem_filter.mp hmem).1
-
-theorem inRange_append (s1 s2 i1 i2 : List Nat) (h1 : InRange s1 i1) (h2 : InRange s2 i2) :
-    InRange (s1 ++ s2) (i1 ++ i2) := by
-  induction s1 generalizing i1 with
-  | nil =>
-    cases i1 with
-    | nil => simpa using h2
-    | cons _ _ => simp [InRange, inRangeB] at h1
-  | cons a s1 ih =>
-    cases i1 with
-    | nil => simp [InRange, inRangeB] at h1
-    | cons b i1 =>
-      simp only [InRange, inRangeB, Bool.and_eq_true, decide_eq_true_eq, List.cons_append] at h1 ⊢
-      exact ⟨h1.1, ih i1 h1.2⟩
 
 theorem Var.CM.inRange_sub {v : Var} (h : v.CM) (hwf : v.WF) (e t : Nat) (he : e < v.ext)
     (ht : t < v.np) : InRange v.rawShape (v.sub e t) := by
   rcases h with hk | ⟨hk, _, _⟩
   · simp only [Var.rawShape, Var.sub, hk, InRange, inRangeB, Bool.and_true, decide_eq_true_eq]
     rw [hwf hk]
-    exact validIdxs_lt _ t ht
+    exact validIdxs_getD_lt _ t ht
   · simp only [Var.rawShape, Var.sub, hk, InRange, inRangeB, Bool.and_true, Bool.and_eq_true,
       decide_eq_true_eq]
     have he' : e < v.n := by simpa [Var.ext, hk] using he
-    exact ⟨by rw [List.getElem?_range he']; simpa using he', validIdxs_lt _ t ht⟩
+    exact ⟨by rw [List.getElem?_range he']; simpa using he', validIdxs_getD_lt _ t ht⟩
 
 theorem Var.CM.inRange_msub {v : Var} (h : v.CM) (hwf : v.WF) (e : Nat) (he : e < v.ext) :
     InRange v.rawShape (v.msub e) := by
   rcases h with hk | ⟨hk, _, h0⟩
   · simp only [Var.rawShape, Var.msub, hk, InRange, inRangeB, Bool.and_true, decide_eq_true_eq]
     rw [hwf hk]
-    exact validIdxs_lt _ e (by simpa [Var.ext, hk] using he)
+    exact validIdxs_getD_lt _ e (by simpa [Var.ext, hk] using he)
   · simp only [Var.rawShape, Var.msub, hk, InRange, inRangeB, Bool.and_true, Bool.and_eq_true,
       decide_eq_true_eq]
     have he' : e < v.n := by simpa [Var.ext, hk] using he
-    exact ⟨by rw [List.getElem?_range he']; simpa using he', validIdxs_lt _ 0 h0⟩
+    exact ⟨by rw [List.getElem?_range he']; simpa using he', validIdxs_getD_lt _ 0 h0⟩
 
 theorem rawShapeOf_two (R C : Var) : rawShapeOf [R, C] = R.rawShape ++ C.rawShape := by
   simp [rawShapeOf]
